@@ -7,6 +7,7 @@ From TS Require Import Spec.Lexers Spec.C15Spec Spec.C15Render.
 From TS Require Proofs.C15_Front Proofs.C15_Replace Proofs.C15 Proofs.C15_Render Proofs.C15_Kotlin Proofs.C15_Go Proofs.C15_Swift Proofs.C15_Python Proofs.C15_TypeScript.
 From TS Require Import Spec.C15RenderScPy.
 From TS Require Proofs.C15_ScalaItem.
+From TS Require Proofs.C15_PythonItem.
 Import ListNotations.
 From TS Require Props.C15.
 
@@ -303,3 +304,28 @@ Goal forall (cfg : sc_config),
     c15_contained C15sc LCode (mark (c15_file_pieces C15sc parts)) = true.
 Proof. exact Props.C15.C15_sc_item_line_free. Qed.
 Print Assumptions Props.C15.C15_sc_item_line_free.
+Goal forall (uc : unicode) (cfg : py_config),
+  unicode_ok uc ->
+  c15_mappings_plain C15py (py_type_mappings cfg) = true ->
+  forall it st text st',
+  c15_py_item_ok it = true ->
+  py_write_item uc cfg it st = Ok (text, st') ->
+  exists parts,
+    text = text_of (c15_file_pieces C15py parts) /\
+    docs_of (c15_file_pieces C15py parts) = map (c15_site_text C15py) (c15_py_item_sites it) /\
+    c15_contained C15py LCode (mark (c15_file_pieces C15py parts)) = forallb (c15_site_ok C15py) (c15_py_item_sites it).
+Proof. exact Props.C15.C15_py_item. Qed.
+Print Assumptions Props.C15.C15_py_item.
+Goal forall (uc : unicode) (cfg : py_config),
+  unicode_ok uc ->
+  c15_mappings_plain C15py (py_type_mappings cfg) = true ->
+  forall it st text st',
+  c15_py_item_ok it = true ->
+  Forall (fun d => safe_line eol_lf_cr d = true) (c15_item_docs it) ->
+  py_write_item uc cfg it st = Ok (text, st') ->
+  exists parts,
+    text = text_of (c15_file_pieces C15py parts) /\
+    docs_of (c15_file_pieces C15py parts) = map (c15_site_text C15py) (c15_py_item_sites it) /\
+    c15_contained C15py LCode (mark (c15_file_pieces C15py parts)) = true.
+Proof. exact Props.C15.C15_py_item_line_free. Qed.
+Print Assumptions Props.C15.C15_py_item_line_free.
